@@ -84,7 +84,7 @@ func upperBoundsOnPath(info *types.Info, body ast.Node, g *core.Graph, path []in
 // nonEmptyFacts: the slices X for which the branch outcome implies len(X) >= 1: `len(X) > 0`, `len(X) != 0`,
 // `len(X) >= 1`, `0 < len(X)` taken true; `len(X) == 0`, `len(X) < 1`, `len(X) <= 0` taken false; through negations
 // and the conjunct / disjunct decomposition of atomsOf. Returned are the renderings of X.
-func nonEmptyFacts(info *types.Info, cond ast.Expr, taken bool) []string {
+func nonEmptyFacts(info *types.Info, cond ast.Expr, taken bool, body ...ast.Node) []string {
 	var out []string
 	atoms, truths := atomsOf(cond, taken)
 	for i, a := range atoms {
@@ -98,6 +98,9 @@ func nonEmptyFacts(info *types.Info, cond ast.Expr, taken bool) []string {
 			op = map[token.Token]token.Token{token.LSS: token.GTR, token.GTR: token.LSS, token.LEQ: token.GEQ, token.GEQ: token.LEQ, token.EQL: token.EQL, token.NEQ: token.NEQ}[op]
 		}
 		k, isConst := core.ConstInt(info, y)
+		if len(body) == 1 && body[0] != nil {
+			x = resolveLocal(info, body[0], x) // n := len(x); if n > 0 …
+		}
 		c, isCall := ast.Unparen(x).(*ast.CallExpr)
 		if !isConst || !isCall || core.CallName(info, c) != "builtin.len" || len(c.Args) != 1 {
 			continue
@@ -121,4 +124,110 @@ func nonEmptyFacts(info *types.Info, cond ast.Expr, taken bool) []string {
 		}
 	}
 	return out
+}
+
+// feasible prunes paths that contradict what the path itself established about nil-ness of variables and about boolean
+// locals: after `err = fmt.Errorf(…)` the branch `err == nil` cannot be taken, after `ok = true` the branch `!ok` cannot,
+// after `x == nil` was found true a later `x != nil` (without an assignment in between) is false. This matters for code
+// in which an early `return err` was turned into an assignment followed by a test (by a maintainer, or by the helper
+// expansion of core.Expanded); without it the path rules would report behaviour of paths that cannot execute.
+func feasible(info *types.Info, g *core.Graph, path []int) bool {
+	type fact struct{ known, val bool } // val: nil / true
+	facts := map[types.Object]fact{}
+	classify := func(e ast.Expr) (fact, bool) {
+		e = ast.Unparen(e)
+		if core.IsNil(info, e) {
+			return fact{true, true}, true
+		}
+		if tv, ok := info.Types[e]; ok && tv.Value != nil && tv.Value.Kind().String() == "Bool" {
+			return fact{true, tv.Value.String() == "true"}, false
+		}
+		switch x := e.(type) {
+		case *ast.CallExpr:
+			switch core.CallName(info, x) {
+			case "fmt.Errorf", "errors.New":
+				return fact{true, false}, true
+			}
+		case *ast.UnaryExpr:
+			if x.Op == token.AND {
+				return fact{true, false}, true
+			}
+		case *ast.CompositeLit:
+			return fact{true, false}, true
+		}
+		return fact{}, true
+	}
+	for i, id := range path {
+		n := g.Nodes[id]
+		if n == nil {
+			continue
+		}
+		if tk, isC := g.Taken(path, i); isC {
+			atoms, truths := atomsOf(n.(ast.Expr), tk)
+			for j, a := range atoms {
+				if x, y, eq, ok := eqTest(a, truths[j]); ok && core.IsNil(info, y) {
+					if o := core.ObjOf(info, x); o != nil {
+						if f, has := facts[o]; has && f.known && f.val != eq {
+							return false
+						}
+						facts[o] = fact{true, eq}
+					}
+					continue
+				}
+				at, tr := normCond(a, truths[j])
+				if o, isVar := core.ObjOf(info, at).(*types.Var); isVar && !o.IsField() {
+					if b, isB := o.Type().Underlying().(*types.Basic); isB && b.Kind() == types.Bool {
+						if f, has := facts[o]; has && f.known && f.val != tr {
+							return false
+						}
+						facts[o] = fact{true, tr}
+					}
+				}
+			}
+			continue
+		}
+		switch s := n.(type) {
+		case *ast.AssignStmt:
+			for k, l := range s.Lhs {
+				o := core.ObjOf(info, l)
+				if o == nil {
+					continue
+				}
+				if len(s.Lhs) == len(s.Rhs) && (s.Tok == token.ASSIGN || s.Tok == token.DEFINE) {
+					if f, _ := classify(s.Rhs[k]); f.known {
+						facts[o] = f
+						continue
+					}
+				}
+				delete(facts, o)
+			}
+		case *ast.IncDecStmt, *ast.RangeStmt:
+		case *ast.ValueSpec:
+			for k, nm := range s.Names {
+				if o := info.Defs[nm]; o != nil {
+					if k < len(s.Values) {
+						if f, _ := classify(s.Values[k]); f.known {
+							facts[o] = f
+							continue
+						}
+						delete(facts, o)
+					} else if _, isIface := o.Type().Underlying().(*types.Interface); isIface {
+						facts[o] = fact{true, true} // zero value of an interface (error) variable
+					} else if b, isB := o.Type().Underlying().(*types.Basic); isB && b.Kind() == types.Bool {
+						facts[o] = fact{true, false}
+					}
+				}
+			}
+		}
+		// a call that receives the address of a tracked variable may change it
+		core.Walk(n, false, func(x ast.Node) bool {
+			if u, ok := x.(*ast.UnaryExpr); ok && u.Op == token.AND {
+				if o := core.ObjOf(info, u.X); o != nil {
+					delete(facts, o)
+				}
+			}
+			return true
+		})
+	}
+	return true
 }
